@@ -7,7 +7,7 @@ import re
 from fractions import Fraction
 
 from .unitdb import (METRIC_PREFIXES, BINARY_PREFIXES, UnitDB, dim_add, dim_scale, nmul, npow,
-                     prefix_factor)
+                     nadd, ndiv, to_dec, prefix_factor)
 
 
 def lit(x: float) -> str:
@@ -236,17 +236,31 @@ class EvalSession:
             self.n = 0
 
     def eval(self, code, **opts):
-        self._ensure()
-        self.n += 1
         opts.setdefault("stmts", False)
-        return self.w.eval(self.sid, code, **opts)
+        return self.run([dict({"op": "eval", "code": code}, **opts)])[0]
 
     def batch(self, codes, **opts):
-        self._ensure()
-        self.n += len(codes)
         opts.setdefault("stmts", False)
-        reqs = [dict({"op": "eval", "sid": self.sid, "code": c}, **opts) for c in codes]
-        return self.w.batch(reqs)
+        return self.run([dict({"op": "eval", "code": c}, **opts) for c in codes])
+
+    def run(self, reqs):
+        """batch of raw requests against this session. A panic inside `interpret` leaves the
+        session in an undefined state (nothing is rolled back), so the session is abandoned
+        and the remaining results of the batch are marked `skipped` (never judged)."""
+        self._ensure()
+        for r in reqs:
+            r.setdefault("sid", self.sid)
+        res = self.w.batch(reqs)
+        self.n += sum(1 for r in reqs if r.get("op") == "eval")
+        poisoned = False
+        for i, r in enumerate(res):
+            if poisoned:
+                res[i] = {"ok": False, "status": "skipped"}
+            elif r.get("status") == "panic":
+                poisoned = True
+        if poisoned:
+            self.reset()
+        return res
 
     def reset(self):
         self.sid = None
@@ -259,3 +273,116 @@ class EvalSession:
             except Exception:
                 pass
             self.sid = None
+
+
+# --------------------------------------------------------------------------------------
+# arithmetic trees over quantities with exact model values (C03, C05, C01)
+
+def _extreme(value, ufactor) -> bool:
+    """would the float numbat holds for this node (value in the node's own unit) or its base-unit
+    value leave the comfortable double range?  (the model has unbounded range, doubles do not)"""
+    try:
+        v = abs(to_dec(value))
+        if v == 0:
+            return False
+        lo, hi = to_dec("1e-200"), to_dec("1e200")
+        if not (lo < v < hi):
+            return True
+        nv = v / abs(to_dec(ufactor))
+        return not (lo < nv < hi)
+    except ArithmeticError:
+        return True
+
+
+class QTree:
+    """expression text + exact model value (base units) + unit shape + conditioning;
+    `extreme` marks trees with a node whose double representation may over/underflow"""
+    __slots__ = ("text", "value", "shape", "relerr", "depth", "nleaves", "extreme")
+
+    def __init__(self, text, value, shape, relerr, depth=0, nleaves=1, kids=()):
+        self.text, self.value, self.shape, self.relerr = text, value, shape, relerr
+        self.depth, self.nleaves = depth, nleaves
+        self.extreme = any(k.extreme for k in kids) or _extreme(value, shape.factor)
+
+    @property
+    def bvec(self):
+        return self.shape.bvec
+
+    @property
+    def dim(self):
+        return self.shape.dim
+
+
+def shape_mul(a: UExpr, b: UExpr, sign=1) -> UExpr:
+    atoms = list(a.atoms) + [(sp, e * sign) for sp, e in b.atoms]
+    return UExpr(None, nmul(a.factor, npow(b.factor, Fraction(sign))), dim_add(a.bvec, b.bvec, sign),
+                 dim_add(a.dim, b.dim, sign), atoms)
+
+
+def shape_pow(a: UExpr, k: Fraction) -> UExpr:
+    return UExpr(None, npow(a.factor, k), dim_scale(a.bvec, k), dim_scale(a.dim, k),
+                 [(sp, e * k) for sp, e in a.atoms])
+
+
+def leaf_for_shape(rng, pool: UnitPool, shape: UExpr, x=None) -> "QTree":
+    """a leaf quantity `x * (unit expr)` of the same dimension as `shape`, in different units"""
+    x = random_magnitude(rng, allow_zero=True) if x is None else x
+    if not shape.atoms:
+        return QTree(plit(x), Fraction(x), UExpr("", Fraction(1), {}, {}, []), 1e-16)
+    # merge atoms of the same unit so the text stays small
+    ue = sibling_uexpr(rng, pool, shape)
+    return QTree(f"({plit(x)} * ({ue.text}))", nmul(Fraction(x), ue.factor), ue, 1e-15)
+
+
+def random_leaf(rng, pool: UnitPool, units=None) -> "QTree":
+    x = random_magnitude(rng)
+    if rng.random() < 0.12:
+        return QTree(plit(x), Fraction(x), UExpr("", Fraction(1), {}, {}, []), 1e-16)
+    ue = random_uexpr(rng, pool, nfactors=rng.choice([1, 1, 1, 2]), units=units)
+    sp_simple = len(ue.atoms) == 1 and ue.atoms[0][1] == 1
+    text = f"({plit(x)} {ue.text})" if sp_simple and rng.random() < 0.6 else f"({plit(x)} * ({ue.text}))"
+    return QTree(text, nmul(Fraction(x), ue.factor), ue, 1e-15)
+
+
+def random_qtree(rng, pool: UnitPool, depth: int, units=None) -> "QTree":
+    if depth <= 0 or rng.random() < 0.15:
+        return random_leaf(rng, pool, units)
+    op = rng.choice(["+", "-", "*", "*", "/", "/", "^"])
+    a = random_qtree(rng, pool, depth - 1, units)
+    if op in "+-":
+        if rng.random() < 0.5:
+            b = leaf_for_shape(rng, pool, a.shape)
+        else:
+            # a deeper right operand of the same dimension: (leaf * scalar tree)
+            b0 = leaf_for_shape(rng, pool, a.shape)
+            s = random_magnitude(rng, allow_zero=False)
+            b = QTree(f"({b0.text} * {plit(s)})", nmul(b0.value, Fraction(s)), b0.shape, b0.relerr + 1e-16,
+                      1, 1, (b0,))
+        if rng.random() < 0.5:
+            a, b = b, a
+        val = nadd(a.value, b.value) if op == "+" else nadd(a.value, -b.value)
+        mag = to_dec(abs(a.value)) * to_dec(a.relerr) + to_dec(abs(b.value)) * to_dec(b.relerr)
+        rel = float(mag / to_dec(abs(val))) + 1e-16 if val != 0 else float("inf")
+        shape = a.shape if to_dec(a.shape.factor) <= to_dec(b.shape.factor) else b.shape
+        return QTree(f"({a.text} {op} {b.text})", val, shape, rel, max(a.depth, b.depth) + 1,
+                     a.nleaves + b.nleaves, (a, b))
+    if op == "*":
+        b = random_qtree(rng, pool, depth - 1, units)
+        return QTree(f"({a.text} * {b.text})", nmul(a.value, b.value), shape_mul(a.shape, b.shape),
+                     a.relerr + b.relerr + 1e-16, max(a.depth, b.depth) + 1, a.nleaves + b.nleaves, (a, b))
+    if op == "/":
+        b = random_qtree(rng, pool, depth - 1, units)
+        if b.value == 0:
+            return a
+        return QTree(f"({a.text} / {b.text})", ndiv(a.value, b.value), shape_mul(a.shape, b.shape, -1),
+                     a.relerr + b.relerr + 1e-16, max(a.depth, b.depth) + 1, a.nleaves + b.nleaves, (a, b))
+    k = rng.choice([2, 2, 3, -1, -2, 0, 1])
+    if a.value == 0 and k <= 0:
+        k = 2
+    kt = str(k) if k >= 0 else f"({k})"
+    return QTree(f"({a.text}^{kt})", npow(a.value, Fraction(k)), shape_pow(a.shape, Fraction(k)),
+                 abs(k) * a.relerr + 1e-16, a.depth + 1, a.nleaves, (a,))
+
+
+def single_token_spelling(s: Spelling) -> bool:
+    return s.form == "plain" or (s.alias[0].isalpha() and s.alias[0].isascii())
